@@ -366,7 +366,7 @@ fn rendezvous_cmd(a: &Args) {
     let mut rng = StdRng::seed_from_u64(seed);
     let mut w = BufWriter::new(File::create(out).unwrap());
     let cores = std::thread::available_parallelism().map(|n| n.get()).unwrap_or(1);
-    let contexts = ["user", "user_par", "default", "batch", "batch_then_pool", "async", "foreign"];
+    let contexts = ["user", "user_par", "default", "batch", "batch_then_pool", "batch_nested", "default_outer_batch", "async", "foreign"];
     let hint_sets: Vec<Vec<u8>> = vec![vec![3], vec![1], vec![5], vec![1, 5], vec![2, 3, 4], vec![1, 1, 2]];
     let (mut runs, mut stalls, mut skipped) = (0usize, 0usize, 0usize);
     let mut samples = Vec::new();
@@ -375,7 +375,7 @@ fn rendezvous_cmd(a: &Args) {
         for ctxname in contexts {
             let hints = hint_sets.choose(&mut rng).unwrap().clone();
             let extra = *[0usize, 1, 3].choose(&mut rng).unwrap();
-            if ctxname == "default" && cores < width {
+            if (ctxname == "default" && cores < width) || (ctxname == "default_outer_batch" && cores < width + 1) {
                 skipped += 1;
                 continue;
             }
@@ -393,7 +393,7 @@ fn rendezvous_cmd(a: &Args) {
                 for _ in 0..reps {
                     rv.reset();
                     rv.log.lock().unwrap().clear();
-                    evs.push(json!({"ev":"rvbegin","w":width,"pool": if ctxname == "default" { cores } else { psize },"ctx":ctxname,
+                    evs.push(json!({"ev":"rvbegin","w":width,"pool": if ctxname.starts_with("default") { cores } else { psize },"ctx":ctxname,
                                     "stages":stages,"width":wd,"hints":hints}));
                     match ctxname {
                         "user" | "user_par" | "default" | "foreign" => {
@@ -419,6 +419,29 @@ fn rendezvous_cmd(a: &Args) {
                                 .with_pool(pool_of(psize))
                                 .with_batch(RvCtl, rv_builder(&rv, &hints), "batch", &[])
                                 .build();
+                            d.dispatch(&world);
+                        }
+                        "batch_nested" => {
+                            // the rendezvous stage is two batches deep; the pool is attached last
+                            let mid = DispatcherBuilder::new().with_batch(RvCtl, rv_builder(&rv, &hints), "inner", &[]);
+                            let mut d = DispatcherBuilder::new()
+                                .with_batch(RvCtl, mid, "outer", &[])
+                                .with_pool(pool_of(psize + 1))
+                                .build();
+                            d.dispatch(&world);
+                        }
+                        "default_outer_batch" => {
+                            // default pool; the rendezvous systems sit next to a narrow batch registered first
+                            let mut b = DispatcherBuilder::new().with_batch(
+                                RvCtl,
+                                DispatcherBuilder::new().with(shredh::rvx::Noop, "noop", &[]),
+                                "narrow",
+                                &[],
+                            );
+                            for i in 0..rv.width {
+                                b.add(RvSys { id: i + 1, t: hints[i % hints.len()], rv: rv.clone() }, &format!("rv{}", i), &[]);
+                            }
+                            let mut d = b.build();
                             d.dispatch(&world);
                         }
                         "batch_then_pool" => {
